@@ -45,9 +45,8 @@ inductive CifValue where
 def i32Max : Nat := 2147483647
 def u32Max : Nat := 4294967295
 
-/-- `parse_numeric` (after the repairs: the integer part is accumulated in `f64`, exponent and uncertainty
-saturate).  The value is kept as an exact decimal; `10_f64.powi(e)` is infinite for `e > 308` and zero for
-`e < -323`. -/
+/-- `parse_numeric` (after the repairs: exponent and uncertainty saturate, the value is the correctly rounded
+`f64` of the literal).  The value is kept as an exact decimal. -/
 def parseNumeric (t : List Char) : Option CifValue :=
   let (neg, b) := match t with | '-' :: r => (true, r) | '+' :: r => (false, r) | r => (false, r)
   let ip := b.takeWhile isDigit
@@ -88,21 +87,14 @@ def parseNumeric (t : List Char) : Option CifValue :=
         let mantN : Nat := digitsVal (ip ++ fp)
         let mant : Int := if neg then -(mantN : Int) else mantN
         let sig := ((ip ++ fp).dropWhile (· == '0')).length
-        let base : Flt := .fin mant (-(fp.length : Int))
+        -- the literal is handed to `str::parse::<f64>`: correctly rounded, infinite beyond the `f64` range,
+        -- zero below it
+        let e : Int := (match ex with | some e => e | none => 0) - (fp.length : Int)
         let f : Flt :=
-          -- a mantissa too long for `f64` is infinite before the exponent is applied
-          if !base.isFinite then
-            (match ex with
-             | some e => if e < -323 then .nan else .inf neg
-             | none => .inf neg)
-          else
-            match ex with
-            | none => base
-            | some e =>
-              if e > 308 then (if mantN = 0 then .nan else .inf neg)
-              else if e < -323 then .fin 0 0
-              else if (Flt.fin mant (e - (fp.length : Int))).isFinite then .fin mant (e - (fp.length : Int))
-              else .inf neg
+          if mantN = 0 then .fin 0 0
+          else if (sig : Int) + e < -330 then .fin 0 0
+          else if (Flt.fin mant e).isFinite then .fin mant e
+          else .inf neg
         match u with
         | none => some (.num f sig t)
         | some u => some (.numU f sig t u)
